@@ -26,6 +26,7 @@ from fractions import Fraction
 
 import numpy as np
 from PIL import Image
+from scipy import interpolate
 
 import gen
 import impl
@@ -175,23 +176,28 @@ def float_exact_may_branch(be, kw, L, integrate):
             if abs(p - round(p)) < Fraction(1, 10 ** 9) and not (p.denominator == 1 and Fraction(float(f)) == p):
                 return "coordinate_tie"
     if integrate:
+        fpos, epos = set(), set()
         for (p, q) in zip(fl, fl[1:]):
             v0 = [math.ceil(p[0]), math.ceil(p[1])]
             v1 = [math.ceil(q[0]), math.ceil(q[1])]
             axis = 0 if abs(v0[0] - v1[0]) > abs(v0[1] - v1[1]) else 1
             a0, a1, b0, b1 = v0[axis], v1[axis], v0[axis - 1], v1[axis - 1]
-            alo, blo, ahi, bhi = (a0, b0, a1, b1) if a0 <= a1 else (a1, b1, a0, b0)
+            if a0 == a1:
+                continue
+            kernel = interpolate.interp1d([a0, a1], [b0, b1], kind="linear")     # the trusted kernel itself
             for a in range(a0, a1, 1 if a0 < a1 else -1):
                 exact = Fraction(b0) + Fraction((b1 - b0) * (a - a0), (a1 - a0))
-                if a == alo:
-                    f = float(blo)
-                elif a == ahi:
-                    f = float(bhi)
-                else:
-                    f = (float(bhi) - float(blo)) / (float(ahi) - float(alo)) * (float(a) - float(alo)) + float(blo)
+                f = np.float64(kernel(a))
                 for kk in range(-L, L + 1):
-                    if int(np.float64(f) + kk) != math.floor(exact) + kk:
+                    fk = f + np.int64(kk)
+                    if int(fk) != math.floor(exact) + kk:
                         return "interp_tie"
+                    for ii in range(-L, L + 1):
+                        fpos.add((a + ii, float(fk)) if axis == 0 else (float(fk), a + ii))
+                        epos.add((Fraction(a + ii), exact + kk) if axis == 0 else (exact + kk, Fraction(a + ii)))
+        if len(fpos) != len(epos):
+            # positions that are equal as rationals differ in the last float digit: the code's set keeps both
+            return "float_position_split"
     return None
 
 
@@ -216,8 +222,8 @@ def make_list(case, b, rng, ck):
 
     if case["type"] == "hand":
         return [b.bes[i] for i in case["order"] if ok(b.bes[i])]
-    pool = [be for be in b.pool if ok(be)]
     allb = [be for be in b.allb if ok(be)]
+    pool = [be for be in b.pool if ok(be)] or allb        # tiny tissues have no internal interface
     kind = case["list"]
     if not pool:
         return []
@@ -336,6 +342,7 @@ def oracle(ck, case, b, lst, arr, obs, stats):
             return
         raw = [v for _, v in o2[0]]
     # window / band statistic
+    known = None
     for i, be in enumerate(lst):
         if not integrate:
             want = oracle_window(arr, be, b.kw, L)
@@ -354,17 +361,19 @@ def oracle(ck, case, b, lst, arr, obs, stats):
                 stats["dev"] = max(stats["dev"], abs(want - raw[i]) / max(abs(raw[i]), 1e-6 * scale, 1e-300))
                 ck.count("S_band_interfaces_ok")
                 continue
-            # known finding: the set holds float positions, a pixel is read once per distinct position
             dup = float(pix_sum(arr, [(math.floor(x), math.floor(y)) for (x, y) in pos])) / length
             if len(pos) > len(pix) and close(dup, raw[i], scale):
-                ck.fail("with integration: sum of the DISTINCT pixels of the band / polyline length",
-                        f"interface {i}: code {raw[i]} = sum over {len(pos)} positions / length; distinct pixels {len(pix)} give {want}",
-                        case, signature=SIG_BAND)
                 ck.count("S_band_interfaces_double_counted")
+                if known is None:
+                    known = (f"interface {i}: code {raw[i]} = sum over {len(pos)} positions / length; "
+                             f"the {len(pix)} distinct pixels give {want}")
             else:
                 ck.fail("with integration: sum of the distinct pixels of the band / polyline length",
                         f"interface {i}: code {raw[i]} distinct-pixel statistic {want} (positions {len(pos)} pixels {len(pix)})", case)
-            break
+                break
+    if known is not None:
+        # known finding: the set holds float positions, a pixel is read once per distinct position
+        ck.fail("with integration: sum of the DISTINCT pixels of the band / polyline length", known, case, signature=SIG_BAND)
     # uniform image
     if case["img"] == "uniform" and not integrate:
         k = float(arr.flat[0])
@@ -454,13 +463,13 @@ def compare(ck, case, b, lst, arr, obs, oid, band_sizes, resp, stats):
 
 def gen_cases(ck):
     quick = ck.tier == "quick"
-    n = 36 if quick else 260
+    n = 84 if quick else 640
     cases = []
     for i in range(n):
         mode = "F" if i % 2 == 0 else "L"
         styles = IMG_STYLES_F if mode == "F" else IMG_STYLES_L
         kind = ["random", "jitter", "hex", "lattice"][int(ck.rng.integers(0, 4))] if i % 6 else "lattice"
-        sites = int(ck.rng.integers(9, 26 if quick else 40))
+        sites = int(ck.rng.integers(12, 28 if quick else 42))
         ppc = float(ck.rng.uniform(7.0, 13.0 if quick else 16.0))          # pixels per cell diameter
         side = int(math.sqrt(sites) * ppc) + 12
         c = {"type": "tissue", "seed": int(ck.rng.integers(1 << 30)), "kind": kind, "sites": sites,
@@ -529,6 +538,7 @@ def run_case(ck, case, reqs, pending, stats):
     ck.count("integrate_on" if case["integrate"] else "integrate_off")
     ck.count("normalize_" + str(case["normalize"])); ck.count("img_" + case["img"])
     ck.count("list_" + case.get("list", "hand")); ck.count("placement_" + case.get("placement", case.get("kind", "hand")))
+    ck.count("kind_" + case.get("kind", "hand"))
     ck.count("interfaces", len(lst)); ck.count("repeated_objects", len(lst) - len(oid))
     ck.count("keys_python_int" if all(t == "int" for t in obs[2]) else "keys_other_type")
 
@@ -561,7 +571,8 @@ def run(ck):
     stats = {"dev": 0.0, "devK": 0.0}
     reqs, pending = [], []
     if ck.replaying:
-        cases = [ck.replaying["case"]]
+        rp = ck.replaying
+        cases = [rp["case"]] if "case" in rp else [d["case"] for d in rp.get("disagreements", [])]
     else:
         cases = ck.corpus_cases() + gen_cases(ck)
     for case in cases:
